@@ -453,7 +453,11 @@ func (a *asm) snippet(k int, subAddr int, st *progState) {
 		case 3:
 			a.io(0x0f, []int{0x01, 0x04, 0x05, 0x1f, 0x02, 0x10, 0x08, 0xff, int(r.byte())}[r.intn(9)])
 		case 4:
-			a.e(0xfb, 0xfb) // EI ; EI
+			if r.chance(50) {
+				a.e(0xfb, 0xcb, 0x37, 0xcb, 0x40) // EI ; SWAP A ; BIT 0,B  (CB-prefixed instructions in the EI shadow)
+			} else {
+				a.e(0xfb, 0xfb) // EI ; EI
+			}
 		case 5:
 			a.e(0xfb, 0xf3) // EI ; DI
 		default:
